@@ -497,6 +497,8 @@ type FuncContract struct {
 	Opaque    bool
 	NilChecks bool
 	Lets      []letDef
+	ReplayExpr string // Go boolean expression over p_<param> / r_<result>: the postcondition, for replaying models
+	ReplayHelp string // helper file under /verif/replay appended to the generated test
 }
 
 type letDef struct {
@@ -542,7 +544,7 @@ var clauseKeywords = map[string]bool{
 	"property": true, "spec": true, "axiom": true, "lemma": true, "func": true, "requires": true, "ensures": true,
 	"modifies": true, "pure": true, "inline": true, "assume": true, "loop": true, "invariant": true, "decreases": true,
 	"unroll": true, "logical": true, "sort": true, "noreturn": true, "nilable": true, "trusted": true, "alloc_bound": true,
-	"const": true, "opaque": true, "nilchecks": true, "let": true, "ghost": true, "ghostfield": true, "macro": true, "mapinv": true,
+	"const": true, "opaque": true, "nilchecks": true, "let": true, "ghost": true, "ghostfield": true, "macro": true, "mapinv": true, "replay": true, "replayhelp": true,
 }
 
 type rawClause struct {
@@ -794,6 +796,10 @@ func (db *ContractDB) LoadFile(path string) error {
 					return fmt.Errorf("%s:%d: %v", path, rc.line, err)
 				}
 				cur.Lets = append(cur.Lets, letDef{strings.TrimSpace(parts[0]), e})
+			case "replay":
+				cur.ReplayExpr = strings.TrimSpace(rc.text)
+			case "replayhelp":
+				cur.ReplayHelp = strings.TrimSpace(rc.text)
 			case "pure":
 				cur.Pure = true
 			case "inline":
